@@ -1,6 +1,7 @@
 import PptxModel.Model.Proto
 import PptxModel.Model.ChartData
 import PptxModel.Model.Hierarchy
+import PptxModel.Model.Replace
 namespace Pptx.Drv.C07
 open Pptx Pptx.Proto Pptx.ChartData Pptx.Hierarchy
 
@@ -23,7 +24,35 @@ def decVals (t : String) : Option (List (Option Int)) :=
 def refStr (col : Str) (top bottom : Nat) : String :=
   s!"Sheet1!${String.ofList col}${top}:${String.ofList col}${bottom}"
 
+def decSer (s : String) : Option Replace.Ser :=
+  match s.splitOn "." with
+  | [u, i, o, f] => do
+      let u ← u.toNat?; let i ← i.toNat?; let o ← o.toNat?; let f ← f.toNat?
+      pure { uid := u, idx := i, order := o, fmt := f }
+  | _ => none
+
+def decPlot (pl : String) : Option Replace.Plot :=
+  match pl.splitOn ":" with
+  | [tag, sers] => do
+      let tag ← tag.toNat?
+      let sers ← (if sers == "" then some [] else (sers.splitOn ",").mapM decSer)
+      pure { tag := tag, sers := sers }
+  | _ => none
+
+/-- plots `tag:uid.idx.order.fmt,...|tag:...`, `!` = no plot -/
+def decChart (t : String) : Option Replace.Chart :=
+  if t == "!" then some [] else (t.splitOn "|").mapM decPlot
+
+def encChart (c : Replace.Chart) : String :=
+  if c.isEmpty then "!" else
+  "|".intercalate (c.map fun p => s!"{p.tag}:" ++ ",".intercalate (p.sers.map fun s => s!"{s.uid}.{s.idx}.{s.order}.{s.fmt}"))
+
 def handle : List String → Option String
+  | ["c07.repl", n, ch] => do
+      let n ← n.toNat?; let c ← decChart ch
+      match Replace.adjust c n with
+      | none => pure "refused"
+      | some c' => pure s!"{encChart c'} {encNatList ((Replace.allSers c').map (·.uid))}"
   | ["c07.vals", vs] => do
       let vs ← decVals vs
       let (n, pts) := ptCache vs
